@@ -25,6 +25,7 @@ EP = "<store::fs::StoreInstance<'a> as ranger::Store<sync::SignedEntry>>::entry_
 
 
 EXPLANATION += ' (R1, round 8) every success return of Store::persistent ensures run_migrations (interprocedural), and Store values are built only on behalf of the constructors.'
+EXPLANATION += ' Round 9: (R4) run_migration commits for Execute(0) as well.'
 
 
 def r1(ctx):
